@@ -324,3 +324,42 @@ def flowshop_opt(inst):
 
     rec([0] * J, [0] * J, [0] * (S * K), 0)
     return best[0]
+
+
+# ------------------------------------------------------------------------------------------
+# SDVRP with split deliveries: all complete visit sequences under the documented rule "always deliver as much as possible"
+def sdvrp_histories(inst, max_nodes=300000):
+    """inst: SDVRP oracle instance with exactly representable demands (dyadic). Returns (set of complete action sequences, complete?).
+    Rules (env docstring): a customer may be visited while it still has demand and the vehicle has free capacity; the visit
+    delivers min(remaining demand, free capacity); the depot may be visited from any customer (and not twice in a row while
+    some customer can still be served); the episode ends with the delivery that serves the last remaining demand."""
+    from fractions import Fraction
+
+    dem = [Fraction(x) for x in inst["demand"][1:]]  # float -> exact rational (index 0 of the oracle's list is the depot)
+    cap = Fraction(inst["cap"])
+    n = len(dem)
+    out, nodes = set(), [0]
+
+    def rec(pos, used, rem, seq):
+        nodes[0] += 1
+        if nodes[0] > max_nodes:
+            raise OverflowError
+        if all(r == 0 for r in rem):
+            out.add(tuple(seq))
+            return
+        servable = [j for j in range(n) if rem[j] > 0 and used < cap]
+        for j in servable:
+            d = min(rem[j], cap - used)
+            rem2 = list(rem)
+            rem2[j] -= d
+            rec(j + 1, used + d, tuple(rem2), seq + [j + 1])
+        if not (pos == 0 and servable):
+            if pos != 0:
+                rec(0, Fraction(0), rem, seq + [0])
+
+    try:
+        rec(0, Fraction(0), tuple(dem), [])
+    except OverflowError:
+        return out, False
+    return out, True
+
